@@ -40,7 +40,8 @@ THEOREMS = {
               "FlooVerif.C05G.pairedGraph_of_inv", "FlooVerif.C05G.onlyLinks_of_inv", "FlooVerif.C05G.bidirectional_of_valid"),
     "C06": _t("C06", "FlooVerif.C06U.pairing_agrees", "FlooVerif.C06U.zip_replicate_eq", "FlooVerif.C06U.zip_replicate_eq'",
               "FlooVerif.C06U.getD_flatMap_replicate") +
-           _t("C06Grid", "FlooVerif.C06G.spec_autolinks_in_graph") + _t("C06Tree", "FlooVerif.C06T.tree_ext") +
+           _t("C06Grid", "FlooVerif.C06G.spec_autolinks_in_graph") +
+           _t("C06Conn", "FlooVerif.C06C.connectPairs_edges", "FlooVerif.C06C.connectPairs_links", "FlooVerif.C06C.connectPairs_only") + _t("C06Tree", "FlooVerif.C06T.tree_ext") +
            _t("C04U", "FlooVerif.C04U.array_is_grid"),
     "C07": _t("C07", "FlooVerif.C07U.id_eq_uid", "FlooVerif.C07U.idOf_eq", "FlooVerif.C07U.uids_dense", "FlooVerif.C07U.id_fits") +
            _t("C07XY", "FlooVerif.C07U.xy_ids_fit", "FlooVerif.C07U.coord_fits", "FlooVerif.C07U.listMin_le", "FlooVerif.C07U.listMax_ge"),
